@@ -1713,6 +1713,71 @@ pub fn status_fault(want: &Value, obs: &Obs) -> Option<String> {
     None
 }
 
+/// The n-th connection of a process: `n` honest logins one after the other (every one a player of its own, every
+/// third a returning player with the cookie the router issued to the previous one's address... no: with its own
+/// freshly forged valid cookie), all in this process. Returns the observations of the connections whose index is
+/// in `keep` (what a process accumulates - counters, tables, pools - shows at the far end, not in the first few).
+pub fn after_many_connections(n: usize, keep: &[usize], secret: &[u8]) -> Vec<(usize, Case, Obs)> {
+    let mut out = vec![];
+    for i in 0..n {
+        let mut c = Case::default();
+        c.cfg.auth_secret = Some(secret.to_vec());
+        c.cfg.client_addr = format!("198.51.{}.{}:{}", (i / 250) % 250, i % 250 + 1, 40_000 + i % 20_000).parse().unwrap();
+        let name = format!("Many{i}");
+        let uuid = 0x4d00_0000_0000_4000_8000_0000_0000_0000u128 + i as u128;
+        let mut login = Login { name: name.clone(), uuid, ..Default::default() };
+        if i % 3 == 2 {
+            login.intent = 3;
+            login.auth_cookie = Some(Some(crate::util::valid_cookie(secret, 5, &c.cfg.client_addr.to_string(), &format!("Back{i}"), uuid ^ 1, &[])));
+        }
+        c.script = login.steps();
+        c.adapters.auth = AuthPlan::Profile { name: format!("Real{i}"), uuid: uuid ^ 2, props: vec![] };
+        let obs = run(&c);
+        if keep.contains(&i) {
+            out.push((i, c, obs));
+        }
+    }
+    out
+}
+
+/// what is wrong with the i-th connection of [`after_many_connections`], by aspect (identity | cookie | order)
+pub fn many_connections_faults(i: usize, case: &Case, obs: &Obs, secret: &[u8]) -> Vec<(&'static str, String)> {
+    let mut v = vec![];
+    let returning = i % 3 == 2;
+    let want_name = if returning { format!("Back{i}") } else { format!("Real{i}") };
+    let got = obs.packets.iter().find_map(|(_, p)| if let Pkt::LoginSuccess { name, .. } = p { Some(name.clone()) } else { None });
+    let asked = obs.calls.iter().any(|c| c.kind() == "authenticate");
+    if got.as_deref() != Some(want_name.as_str()) || asked == returning || !obs.has("Transfer") {
+        v.push(("identity", format!("connection #{i} of the process ({}): admitted as {got:?} (expected {want_name}), authentication service asked: {asked}, packets {:?}, result {:?}", if returning { "returning with a valid cookie" } else { "fresh login" }, obs.kinds(), obs.result)));
+    }
+    let mut want_kinds = vec!["LoginCookieRequest"];
+    if returning {
+        want_kinds.push("LoginCookieRequest");
+    }
+    want_kinds.extend(["EncryptionRequest", "LoginSuccess"]);
+    if !returning {
+        want_kinds.push("StoreCookie");
+    }
+    want_kinds.extend(["StoreCookie", "Transfer"]);
+    if obs.kinds() != want_kinds || obs.garbled.is_some() || obs.partial_tail > 0 {
+        v.push(("order", format!("connection #{i} of the process was answered with {:?} (undecodable {:?}); expected {want_kinds:?}", obs.kinds(), obs.garbled)));
+    }
+    if !returning {
+        let cookie = obs.packets.iter().find_map(|(_, p)| match p {
+            Pkt::StoreCookie { key, payload } if key == "passage:authentication" => Some(payload.clone()),
+            _ => None,
+        });
+        let ok = cookie.as_ref().is_some_and(|p| {
+            let (tag_ok, body) = crate::util::open_cookie(p, secret);
+            tag_ok && body.as_ref().is_some_and(|b| b["user_name"] == Value::String(want_name.clone()) && b["client_addr"] == Value::String(case.cfg.client_addr.to_string()))
+        });
+        if !ok {
+            v.push(("cookie", format!("connection #{i} of the process: the cookie issued to {want_name} at {} is {:?}", case.cfg.client_addr, cookie.as_ref().map(|p| crate::util::open_cookie(p, secret)))));
+        }
+    }
+    v
+}
+
 /// Seeds whose first `R` unbiased-select draws realise every bit pattern.
 pub fn seeds_for_patterns(r: usize) -> Vec<u64> {
     let want = 1usize << r;
